@@ -1,7 +1,8 @@
 CHECKS["C18"] = dict(
     overlay={"twins/zz_verif_c18_test.go": "harness/pkg/twins/c18_test.go",
              "internal/cli/zz_verif_c18_test.go": "harness/pkg/cli/c18_test.go"},
-    units=[unit("c18", "./twins", "^TestC18", shards=(16, 16), timeout=(600, 3000)),
+    units=[unit("c18", "./twins", "^TestC18[^R]", shards=(16, 16), timeout=(600, 3000)),
+           unit("c18race", "./twins", "^TestC18Race", race=True, shards=(4, 8), timeout=(600, 3000)),
            unit("c18cli", "./internal/cli", "^TestC18CLI", shards=(4, 8), timeout=(600, 3000))],
     rule=("generator: EVERY setting of the box nodes 1..5 x twins 0..min(2,nodes) x partitions 1..3 x views 1..4 (168 settings), each "
           "unshuffled and shuffled with 3 (quick) / 6 (thorough) fixed seeds, plus rapid-drawn settings with random int64 seeds. A "
@@ -20,7 +21,7 @@ CHECKS["C18"] = dict(
           "<= 4 replicas and length <= 10; non-trivial = logs diverging after a common prefix. executor: ExecuteScenario on real "
           "scenarios (4 replicas, 0..1 twins, 3 rule sets), reported Safe/Commits == reference over the reported NodeCommits. "
           "command line (unit c18cli): twinsGenerate / twinsRun --log-all write/execute exactly the announced scenarios, once each, "
-          "in one file or a directory of files readable by FromJSON. distinct = hash of the case."),
+          "in one file or a directory of files readable by FromJSON. distinct = hash of the case. Concurrent drawing (TestC18ConcurrentDraw, and TestC18RaceConcurrentDraw under the race detector): 2..8 goroutines draw from ONE generator (what `twins run --concurrency N` does); what they were handed, as a multiset, must be exactly the sequential enumeration (no scenario twice, none missing, none foreign)."),
     assumptions=["scenario equality is equality of leaders and of the ordered partition lists (the JSON form); views that differ only in "
                  "the order of their partitions are counted as different (measured: class has-views-equal-up-to-partition-order)",
                  "ExecuteScenario is only observed reporting 'safe' on real runs (no unsafe run is available: the skipped TestFHSBug "
